@@ -167,8 +167,7 @@ theorem read_written {e : Entries} {c : Counter} (ev : Str → EvalResult) (targ
     simp only [parseFile, hx, hr, fs_get_single, hj, hparse]
     rfl
   simp only [readFile, hpf, bind, Except.bind, pure, Except.pure]
-  simp only [show ({} : ReadOpts).includes = true from rfl, show ({} : ReadOpts).comments = true from rfl, if_true, hmi,
-    hev]
+  simp only [if_true, hmi, hev]
   rfl
 
 /-- **C01, route 2** (DictWriter + DictReader on files).  For a dict `d` whose normal form `normEs d` (the writer
@@ -205,3 +204,61 @@ theorem C01_roundtrip_file_never_fails {d : Entries} {c : Counter} (ev : Str →
       readFile ev [(target, .native t)] {} c₁ target = .ok r := by
   obtain ⟨hw, c', hrd⟩ := C01_roundtrip_file ev target mode hdom hd hn hc hj hx hr
   exact ⟨_, _, _, hw, hrd⟩
+
+/-! ## (d) route 3 : `SDict(d).dump(f)` then `SDict().load(f)` -/
+
+/-- what `to_string` writes for an `SDict` whose four side tables are empty (native flavour): the default header —
+    a block comment — in front of the text the plain-dict route writes (before trailing-space removal) -/
+theorem C01_roundtrip_dump_partial (e : Entries) :
+    fmtSD .native { data := e } =
+      some (removeTrailingSpaces (nativeHeader ++ fmtEntries .native 0 (hoistPlaceholders e))) := by
+  simp [fmtSD, insertBlockComments, insertIncludes, insertLineComments, makeDefaultBlockComment, containsCpp]
+
+/-- `dump` of `SDict(d)` in the model: `writeStep`'s serialisation of the `SDict` is `fmtSD`; with `d` normalised
+    first, as `DictWriter.write` does -/
+theorem C01_dump_text (d : Entries) :
+    fmtSD .native { data := normEs d } =
+      some (removeTrailingSpaces (nativeHeader ++ fmtEntries .native 0 (hoistPlaceholders (normEs d)))) :=
+  C01_roundtrip_dump_partial (normEs d)
+
+/-- the placeholder entries the reader adds for comments (C01 permits them): removed for the comparison -/
+def dropPhEntries (es : Entries) : Entries := es.filter fun e => !C07.isPhKey e.1
+
+/-- **C01, route 3, full statement** (kept visible; NOT proved here).  `SDict(d).dump(f)` writes the default header in
+    front of the dict; `SDict().load(f)` reads the file with comments on, so the header comes back as a block-comment
+    table entry and one placeholder entry in the data.  Apart from that placeholder entry the data read is `normEs d`.
+
+    Re-reading a text with a block comment goes through the comment stage of `parseNative`
+    (`lexBlockCommentsFuel`, `_clean`), which is outside the proved fragment (C02 covers comment-free text).  This
+    route is decided by the correspondence check (harness C01, route `dump_load`) only. -/
+def C01_roundtrip_dump_statement : Prop :=
+  ∀ (ev : Str → EvalResult) (d : Entries) (c : Counter) (target : Comps),
+    DomC01 .native (normEs d) = true → DocKeysAbsent' d →
+    C02.countQuotedEs (srcOfEs .native (normEs d)) ≤ Gen.counterLimit + 1 → C13.ValidCounter Gen.counterLimit c →
+    isJsonPath target = false → isXmlPath target = false → resolveSpelled target = target →
+    ∃ text sd c', fmtSD .native { data := normEs d } = some text ∧
+      readFile ev [(target, .native text)] {} c target = .ok (.ok sd c') ∧
+      dropPhEntries sd.data = normEs d
+
+/-! ## non-vacuity: the example dict of `C01fmt`, written to `/w/dict` and read back -/
+
+theorem exDict_route2 (ev : Str → EvalResult) (mode : Str) :
+    writeStep ev .native ["w".toList, "dict".toList] none mode false exDict none = .ok (fmtPlain .native exDict, none) ∧
+    ∃ c', readFile ev [(["w".toList, "dict".toList], .native (fmtPlain .native exDict))] {} none
+      ["w".toList, "dict".toList] = .ok (.ok { data := exDict } c') := by
+  have h := C01_roundtrip_file (d := exDict) (c := none) ev ["w".toList, "dict".toList] mode
+    (by rw [exDict_norm]; exact exDict_dom) exDict_docKeys (by rw [exDict_norm, exDict_count]; decide) (Or.inl rfl)
+    (by decide) (by decide) (by decide)
+  rwa [exDict_norm] at h
+
+/-- a string leaf that spells a number is re-typed by the writer: `{a: "1"}` is written and read back as `{a: 1}` -/
+theorem ex_retyped (ev : Str → EvalResult) (mode : Str) :
+    ∃ c', readFile ev [(["f".toList], .native (fmtPlain .native [(.str ['a'], .leaf (.int 1))]))] {} none ["f".toList] =
+      .ok (.ok { data := [(.str ['a'], .leaf (.int 1))] } c') := by
+  have h := C01_roundtrip_file (d := [(.str ['a'], .leaf (.str ['1']))]) (c := none) ev ["f".toList] mode
+    (by decide +kernel) (by decide) (by decide +kernel) (Or.inl rfl) (by decide) (by decide) (by decide)
+  have e : normEs [(.str ['a'], .leaf (.str ['1']))] = [(.str ['a'], .leaf (.int 1))] := by decide +kernel
+  rw [e] at h
+  exact h.2
+
+end DictIO.C01
